@@ -157,7 +157,7 @@ def c04_runs(tier):
     # the public clock: handlers read iv_now and call iv_invalidate_now between timer operations; inside a timer
     # handler iv_now is at or past the expiry, it never runs backwards and is never ahead of the kernel clock
     r += per_method('iv_now', [0] if q else [0, 1, 2, 3], ['timer.handler-ran', 'C04.iv_now-read'], K=1, T=2,
-                    R=3 if q else 4, acts=A_TIMER | A_VALIDATE, A=2, L=2 if q else 3, symtruth=0, symtime=2, patterns=1)
+                    R=3, acts=A_TIMER | A_VALIDATE, A=2, L=2, symtruth=0, symtime=2, patterns=1)
     return r
 
 
@@ -653,8 +653,8 @@ CHECKS = {
                            'from handlers (with iv_invalidate_now in between) is >= the expiry inside a timer handler, '
                            'never runs backwards, never ahead of the kernel clock; a timer due when a wait returned '
                            'has run at the latest one iteration later.',
-            'bounds': {'quick': 'iv_now run: 2 timers, 3 iterations, 2 operations per handler (epoll-timerfd; all methods, '
-                                '4 iterations in thorough); '
+            'bounds': {'quick': 'iv_now run: 2 timers, 3 iterations, 2 operations (epoll-timerfd; all four methods '
+                                'in thorough); '
                                 '2 timers + 1 always-readable fd, 7 iterations (timerfd optimisation engages), times '
                                 'within one second (nsec unknown) and the zero instant; full (sec,nsec) unknown pairs '
                                 'for 2 iterations', 'thorough': '9 iterations with 1 timer operation, 7 iterations with 2; '
